@@ -602,6 +602,73 @@ Proof.
       exists e. split; [exact E1|]. intros f. now rewrite E1.
 Qed.
 
+(* ---- a late full drain yields everything (liveness of the bookkeeping) ---- *)
+
+Lemma promote_all_due r now order :
+  Forall (fun c => due now c = true) (inflight r) ->
+  inflight (promote r now order) = [] /\
+  length (ready (promote r now order)) = (length (ready r) + length (inflight r))%nat /\
+  visible (promote r now order) = visible r.
+Proof.
+  intros D. unfold promote. destruct (promote_loop _ _ _ _ _) as [infl m] eqn:P.
+  pose proof (promote_loop_spec _ _ _ _ _ _ _ P) as (Pm & _). rewrite app_nil_r in Pm.
+  assert (L : Forall (fun c => due now c = false) infl).
+  { eapply promote_loop_left; [exact P|cbn; lia|constructor]. }
+  assert (E : infl = []).
+  { destruct infl as [|c t]; [reflexivity|]. exfalso. inversion L as [|? ? Hc _]; subst.
+    assert (In c (inflight r)) by (apply (Permutation_in _ (Permutation_sym Pm)); now left).
+    rewrite Forall_forall in D. rewrite (D c H) in Hc. discriminate. }
+  subst infl. cbn. split; [reflexivity|]. split; [|reflexivity].
+  rewrite app_length. f_equal. cbn in Pm.
+  rewrite (Permutation_length (reorder_perm order m)). symmetry. now apply Permutation_length.
+Qed.
+
+Lemma drain_all orders : forall r fs,
+  N.of_nat (length orders) = visible r ->
+  (length (inflight r) + length (ready r) = length orders)%nat ->
+  forall now, Forall (fun c => due now c = true) (inflight r) ->
+  let '(r', _, os) := rrun r fs (map (Next now) orders) in
+  inflight r' = [] /\ ready r' = [] /\ length (yields os) = length orders.
+Proof.
+  induction orders as [|o orders IH]; intros r fs Vis Len now D; cbn.
+  - cbn in Len. destruct (inflight r), (ready r); try discriminate. auto.
+  - unfold next. destruct (visible r =? 0) eqn:V0.
+    { apply N.eqb_eq in V0. cbn in Vis. lia. }
+    destruct (promote_all_due r now o D) as (PI & PL & PV).
+    destruct (ready (promote r now o)) as [|c rest] eqn:R.
+    { cbn in PL, Len. lia. }
+    destruct (exec A fs (c_app c)) as [[fs1 z] d].
+    set (r2 := set_visible (set_ready (promote r now o) rest) (visible r - 1)).
+    assert (I2 : inflight r2 = []) by exact PI.
+    assert (H := IH r2 fs1).
+    assert (Hv : N.of_nat (length orders) = visible r2) by (subst r2; cbn; cbn in Vis; lia).
+    assert (Hl : (length (inflight r2) + length (ready r2) = length orders)%nat)
+      by (subst r2; cbn; rewrite PI; cbn; cbn in PL, Len; lia).
+    assert (Hd : Forall (fun c => due now c = true) (inflight r2)) by (rewrite I2; constructor).
+    specialize (H Hv Hl now Hd).
+    destruct (rrun r2 fs1 (map (Next now) orders)) as [[r3 fs3] os3].
+    destruct H as (H1 & H2 & H3). repeat split; auto. unfold yields in *. cbn. now rewrite H3.
+Qed.
+
+Lemma length_filter_all {X} (p : X -> bool) l : Forall (fun x => p x = true) l -> length (filter p l) = length l.
+Proof. induction 1 as [|x l Hx _ IH]; cbn; [reflexivity|]. rewrite Hx. cbn. now rewrite IH. Qed.
+
+Lemma drain_after_sync r fs now orders :
+  Forall (fun c => due now c = true) (inflight r) ->
+  length orders = (length (inflight r) + length (ready r))%nat ->
+  let '(r', _, os) := rrun r fs (Sync now :: map (Next now) orders) in
+  inflight r' = [] /\ ready r' = [] /\ length (yields os) = length orders.
+Proof.
+  intros D L. cbn.
+  assert (Hv : N.of_nat (length orders) = visible (set_visible r (ready_cq_count r now))).
+  { cbn. unfold ready_cq_count. rewrite (length_filter_all _ _ D), L. lia. }
+  assert (Hl : (length (inflight (set_visible r (ready_cq_count r now))) +
+                length (ready (set_visible r (ready_cq_count r now))) = length orders)%nat) by (cbn; lia).
+  pose proof (drain_all orders (set_visible r (ready_cq_count r now)) fs Hv Hl now D) as H.
+  destruct (rrun (set_visible r (ready_cq_count r now)) fs (map (Next now) orders)) as [[r3 fs3] os3].
+  destruct H as (H1 & H2 & H3). unfold yields in *. cbn. auto.
+Qed.
+
 (* ---- push ---- *)
 
 Definition SqOk (r : ring) : Prop := N.of_nat (length (sq r)) <= depth r.
